@@ -438,7 +438,9 @@ class DocutilsRenderer(RendererProtocol):
 
         # if we are jumping up to a non-consecutive level,
         # then warn about this, since this will not be propagated in the docutils AST
-        if (level > parent_level) and (parent_level + 1 != level):
+        # (only if deeper than the preceding heading: siblings of a section that was
+        # reached by such a jump, and steps back down, are not increases)
+        if (level > max(self._level_to_section)) and (parent_level + 1 != level):
             msg = f"Non-consecutive header level increase; H{parent_level} to H{level}"
             if parent_level == 0:
                 msg = f"Document headings start at H{level}, not H1"
